@@ -310,6 +310,9 @@ def _lrepr_py_tuple(o: tuple, **kwargs: Unpack[PrintSettings]) -> str:
 
 @lrepr.register(complex)
 def _lrepr_complex(o: complex, **_) -> str:
+    if o.real == 0:
+        imag = repr(o.imag)
+        return f"{imag[:-2] if imag.endswith('.0') else imag}J"
     return repr(o).upper()
 
 
